@@ -184,6 +184,7 @@ func (vc *VC) finish() {
 		}
 		merged[i] = vc.nameVal(v, "res")
 	}
+	vc.mergedResults = merged
 	var mem *Mem
 	if len(vc.retMems) == 1 {
 		mem = vc.retMems[0]
